@@ -123,7 +123,7 @@ CHECKS["C11"] = {
     "assumptions": ["a goroutine that still exists in the bubble after all clients left, the server was cancelled and the backend closed is a leak"],
     "units": [{"name": "c11", "pkg": "c11", "run": "^Test", "shards": 8},
               {"name": "c11w", "pkg": ".", "overlay": "root", "run": "^TestVerifWiringC11$", "shards": 2}],
-    "expect_checks": ["c11.release", "c11.pause-cancel", "c11.wiring", "c11.upgrade"],
+    "expect_checks": ["c11.release", "c11.pause-cancel", "c11.wiring", "c11.upgrade", "c11.deaf-client"],
 }
 
 CHECKS["C17"] = {
